@@ -200,6 +200,58 @@ def handle (f : File) (j : Json) : File × Json :=
     | _, _ => (f, bad "C13: find_related")
   | _ => (f, bad "C13: unknown op")
 
-def main : IO Unit := loop ({} : File) handle
+/-- is the entity `k` what the handle description `via` reaches?  `"fresh"` / `"cached"`: a handle from
+the containers / from `create_section`; `["md", e]`: `e.metadata`; `["link", h]`: an element of `h.sources` -/
+def viaOk (f : File) (k : Nat) (via : Json) : Option Bool :=
+  match via with
+  | Json.str "fresh" => some true
+  | Json.str "cached" => some true
+  | _ =>
+    match (jArr via).toList with
+    | [Json.str "md", e] =>
+      match (jNat? e).bind f.lookup with
+      | some (.blk b) => some (b.md == some k)
+      | some (.hold _ h) => some (h.md == some k)
+      | some (.src _ n) => some (n.md == some k)
+      | _ => some false
+    | [Json.str "link", h] =>
+      match (jNat? h).bind f.lookup with
+      | some (.hold _ h) => some (h.srcs.contains k)
+      | _ => some false
+    | _ => none
+
+/-- queries through a handle reached by a link: the answer does not depend on the handle, the link has to exist -/
+def handleV (f : File) (j0 : Json) : File × Json :=
+  -- `"found"`: the handle is an element of a `find_sections()` / `find_sources()` result — as good as re-fetched
+  let j := Json.arr ((jArr j0).map fun x => match x with
+    | Json.str "found" => Json.str "fresh"
+    | x => x)
+  let thru (k : Json) (via : Json) (plain : Json) : File × Json :=
+    match jNat? k with
+    | none => (f, bad "C13: key")
+    | some k =>
+      match viaOk f k via with
+      | some true => handle f plain
+      | some false => (f, err .keyError)
+      | none => (f, bad "C13: via")
+  match (jArr j).toList with
+  | [Json.str "find", root, filt, limit, via] => thru root via (Json.arr #[Json.str "find", root, filt, limit])
+  | [Json.str "referring", k, what, via] => thru k via (Json.arr #[Json.str "referring", k, what])
+  | [Json.str "find_related", k, via, filt] =>
+    match via with
+    | Json.str _ => handle f j
+    | _ => thru k via (Json.arr #[Json.str "find_related", k, Json.str "fresh", filt])
+  -- `section.link = other` / `= None`: stored, but no search, parent or referring list looks at it
+  | [Json.str "set_link", k, target] =>
+    match (jNat? k).bind (fun k => findL? k f.sections) with
+    | none => (f, err .keyError)
+    | some _ =>
+      if isNull target then (f, ok Json.null) else
+      match (jNat? target).bind (fun k => findL? k f.sections) with
+      | none => (f, err .keyError)
+      | some _ => (f, ok Json.null)
+  | _ => handle f j
+
+def main : IO Unit := loop ({} : File) handleV
 
 end Driver.C13
